@@ -64,3 +64,41 @@ package random
 //@ assigns everything
 //@ ensures [errors] n < 0 ==> result != nil
 //@ ensures [ok] n >= 0 ==> result == nil
+
+// ---- ChaCha20 PRG (C14) ----
+
+// Representation invariant of the PRG core: the constant message is all zero, the byte counter
+// equals the cipher's keystream position, and the cipher's stream is the one of (seed, customizer).
+//@ pred coreInv(c) = c != nil && forall(k, 0, 64, c.emptyMessage[k] == 0) && c.cipher.pos == c.bytesCounter && c.cipher.sid == chachaStream(c.seed[:], c.customizer[:]) && c.bytesCounter <= 274877906944
+
+//@ func (*chachaCore).Read mode int props C14 C09
+//@ requires coreInv(c)
+//@ requires [stream-limit] c.bytesCounter + len(buffer) <= 274877906944
+//@ requires [no-self-alias] obj(buffer) != obj(c)
+//@ assigns buffer[:], c.cipher, c.bytesCounter
+//@ ensures [inv] coreInv(c)
+//@ ensures [keystream] forall(k, 0, len(buffer), buffer[k] == ks(c.cipher.sid, old(c.bytesCounter) + k))
+//@ ensures [counter] c.bytesCounter == old(c.bytesCounter) + len(buffer) && c.cipher.sid == old(c.cipher.sid)
+//@ ensures [key-kept] unchanged(c.seed) && unchanged(c.customizer)
+//@ loop 1 invariant 0 <= i && i <= len(buffer)
+//@ loop 1 invariant forall(k, 0, i, buffer[k] == 0)
+
+//@ func (*chachaPRG).Store mode int props C14 C09
+//@ requires c != nil && c.core != nil
+//@ assigns nothing
+//@ ensures [layout] len(result) == 52 && forall(k, 0, 32, result[k] == c.core.seed[k]) && forall(k, 0, 12, result[32+k] == c.core.customizer[k]) && le64(result[44:52]) == c.core.bytesCounter
+
+//@ func NewChacha20PRG mode int props C14 C09
+//@ assigns nothing
+//@ ensures [bad-lengths] (len(seed) != 32 || len(customizer) > 12) ==> result0 == nil && result1 != nil
+//@ ensures [ok] len(seed) == 32 && len(customizer) <= 12 ==> result1 == nil && result0 != nil && fresh(result0) && coreInv(result0.core) && result0.core.bytesCounter == 0 && prgInv(&result0.genericPRG) && typeis(result0.genericPRG.randCore, *chachaCore) && unbox(result0.genericPRG.randCore, *chachaCore) == result0.core
+//@ ensures [key] len(seed) == 32 && len(customizer) <= 12 ==> forall(k, 0, 32, result0.core.seed[k] == seed[k]) && forall(k, 0, 12, result0.core.customizer[k] == ite(k < len(customizer), customizer[k], 0))
+
+//@ func RestoreChacha20PRG mode int props C14 C09
+//@ assigns nothing
+//@ ensures [bad-length] len(stateBytes) != 52 ==> result0 == nil && result1 != nil
+//@ ensures [ok] len(stateBytes) == 52 ==> result1 == nil && result0 != nil && fresh(result0) && prgInv(&result0.genericPRG) && typeis(result0.genericPRG.randCore, *chachaCore) && unbox(result0.genericPRG.randCore, *chachaCore) == result0.core
+//@ ensures [key] len(stateBytes) == 52 ==> forall(k, 0, 32, result0.core.seed[k] == stateBytes[k]) && forall(k, 0, 12, result0.core.customizer[k] == stateBytes[32+k]) && result0.core.bytesCounter == le64(stateBytes[44:52])
+//@ ensures [resume-pos] len(stateBytes) == 52 && le64(stateBytes[44:52]) < 274877906944 ==> result0.core.cipher.pos == result0.core.bytesCounter
+//@ ensures [resume-stream] len(stateBytes) == 52 ==> result0.core.cipher.sid == chachaStream(result0.core.seed[:], result0.core.customizer[:])
+//@ ensures [resume-zero] len(stateBytes) == 52 ==> forall(k, 0, 64, result0.core.emptyMessage[k] == 0)
